@@ -5,7 +5,10 @@ package sim
 // They are used where the oracle is differential or robustness-only (C11, C14): decoder state such
 // as the type-reference table only matters for streams that use it.
 
-import "bytes"
+import (
+	"bytes"
+	"fmt"
+)
 
 type foreignBuilder struct {
 	ch       *Choices
@@ -187,4 +190,121 @@ func foreignStream(ch *Choices, dangling bool) ([]byte, int, map[string]int) {
 		}
 	}
 	return f.buf.Bytes(), n, f.Features
+}
+
+// hostileStream builds legal but adversarial structure that byte-level damage of ordinary messages
+// never produces: DAGs whose size doubles per level through back-references ("billion laughs"), very
+// deep nesting, very many references to one object, very many tiny values. A decoder whose cost is
+// bounded by the input size handles all of them in linear time.
+func hostileStream(ch *Choices) ([]byte, string) {
+	var b bytes.Buffer
+	f := &foreignBuilder{ch: ch, Features: map[string]int{}}
+	switch ch.Intn(6, "hostile.kind") {
+	case 0:
+		// L(n) = [L(n-1), ref L(n-1)] as fixed-length untyped lists: 3n+1 bytes, 2^n paths
+		n := ch.Range(8, 60, "hostile.depth")
+		for i := 0; i < n; i++ {
+			b.WriteByte(0x7a) // untyped list, length 2
+		}
+		b.WriteByte(0x90) // innermost first element
+		b.WriteByte(0x91) // innermost second element
+		for i := n - 1; i >= 1; i-- {
+			// second element of level i-1: ref to the list opened at level i (ordinal i)
+			b.WriteByte(0x51)
+			f.buf.Reset()
+			f.int(int32(i))
+			b.Write(f.buf.Bytes())
+		}
+		return b.Bytes(), fmt.Sprintf("list DAG of depth %d (each level holds its child twice, once by reference)", n)
+	case 1:
+		// the same with untyped maps: M(n) = {1: M(n-1), 2: ref M(n-1)}
+		n := ch.Range(8, 50, "hostile.depth")
+		for i := 0; i < n; i++ {
+			b.WriteByte('H')
+			b.WriteByte(0x91)
+		}
+		b.WriteByte(0x90)
+		for i := n - 1; i >= 0; i-- {
+			if i < n-1 {
+				b.WriteByte(0x92)
+				b.WriteByte(0x51)
+				f.buf.Reset()
+				f.int(int32(i + 1))
+				b.Write(f.buf.Bytes())
+			}
+			b.WriteByte('Z')
+		}
+		return b.Bytes(), fmt.Sprintf("map DAG of depth %d", n)
+	case 2:
+		// deep nesting of one-element lists
+		n := ch.Range(100, 20000, "hostile.depth")
+		kind := byte(0x79)
+		if ch.Intn(2, "hostile.var") == 1 {
+			kind = 0x57
+		}
+		for i := 0; i < n; i++ {
+			b.WriteByte(kind)
+		}
+		b.WriteByte(0x90)
+		if kind == 0x57 {
+			for i := 0; i < n; i++ {
+				b.WriteByte('Z')
+			}
+		}
+		return b.Bytes(), fmt.Sprintf("%d nested one-element lists", n)
+	case 3:
+		// one big list, then a long list of references to it
+		n := ch.Range(100, 8000, "hostile.refs")
+		b.WriteByte(0x57)
+		b.WriteByte(0x58)
+		f.buf.Reset()
+		f.int(200)
+		b.Write(f.buf.Bytes())
+		for i := 0; i < 200; i++ {
+			b.WriteByte(0x90)
+		}
+		for i := 0; i < n; i++ {
+			b.WriteByte(0x51)
+			b.WriteByte(0x91)
+		}
+		b.WriteByte('Z')
+		return b.Bytes(), fmt.Sprintf("%d references to one 200-element list", n)
+	case 4:
+		// very many tiny values in a variable-length list, typed as a zoo list
+		n := ch.Range(1000, 40000, "hostile.n")
+		b.WriteByte(0x55)
+		b.WriteByte(6)
+		b.WriteString("[int32")
+		for i := 0; i < n; i++ {
+			b.WriteByte(byte(0x90 + i%40))
+		}
+		b.WriteByte('Z')
+		return b.Bytes(), fmt.Sprintf("variable-length typed list of %d one-byte ints", n)
+	default:
+		// chain of objects, each pointing at the previous one by reference, plus a final fan-in list
+		n := ch.Range(50, 3000, "hostile.chain")
+		b.WriteByte(0x57)
+		b.WriteByte('C')
+		b.WriteByte(3)
+		b.WriteString("K08")
+		b.WriteByte(0x92)
+		b.WriteByte(1)
+		b.WriteString("p")
+		b.WriteByte(1)
+		b.WriteString("a")
+		for i := 0; i < n; i++ {
+			b.WriteByte(0x60)
+			if i == 0 {
+				b.WriteByte('N')
+			} else {
+				b.WriteByte(0x51)
+				f.buf.Reset()
+				f.int(int32(i)) // ordinal 0 is the outer list
+				b.Write(f.buf.Bytes())
+			}
+			b.WriteByte(0x90)
+		}
+		b.WriteByte('Z')
+		return b.Bytes(), fmt.Sprintf("chain of %d objects linked by back-references", n)
+	}
 }
